@@ -339,6 +339,36 @@ fn aligned_cases(ctx: &Ctx) -> Vec<AlignedCase> {
     cases
 }
 
+/// Forgeries (t1 = 0) whose response vector is the maximal-forward-NTT-growth construction.
+#[derive(Clone, Debug, Serialize, Deserialize)]
+pub struct GrowthSig {
+    pub set: u8,
+    pub negative: bool,
+    pub mode: u8,
+    pub hint_full: bool,
+}
+
+pub fn check_growth_sig(c: &GrowthSig, st: &mut Stats) -> CheckResult {
+    let libr = libs()[c.set as usize % 3];
+    let p = libr.p();
+    let zg = crate::props::c18::growth_vector_guided(&p, c.negative);
+    let z: Vec<rf::Poly> = vec![zg; p.l];
+    let h = sigs::make_h(&p, 3, if c.hint_full { &sigs::HKind::Full } else { &sigs::HKind::Empty });
+    let pk = sigs::t1_zero_pk(&p, &[0x11u8; 32]);
+    let (m, cx, mode) = (b"maximal growth".to_vec(), vec![1u8, 2], gen::mode_of(c.mode));
+    let sig = sigs::forge_fields(&p, &pk, &m, &cx, mode, &z, &h);
+    let rv = rf::verify(&p, &pk, &m, &sig, &cx, mode);
+    assert!(rv.accepted(), "harness: reference rejects the maximal-growth forgery ({rv:?})");
+    st.eval();
+    st.nontrivial(&(c.set, c.negative, c.mode, c.hint_full));
+    st.class(&format!("growth_sig:set{}", p.id));
+    st.sample(&format!("growth_sig:set{}", p.id), || json!({"set": p.id, "negative": c.negative, "mode": mode.tag(), "z_nonzero": zg.iter().enumerate().filter(|(_, &x)| x != 0).map(|(i, &x)| (i, x)).collect::<Vec<_>>()}));
+    if !g_verify_bytes(libr, &pk, &m, &sig, &cx, mode)? {
+        fail!(format!("rejects_valid:set{}:max_growth", p.id), "set {}: signature whose response vector maximises forward-NTT growth is accepted by FIPS 204 Verify but rejected by the library", p.id);
+    }
+    Ok(())
+}
+
 pub fn run(ctx: &Ctx, rep: &mut Report) {
     rep.assume(ASSUME_REF);
     rep.assume("accept-side cases under an honest public key come only from honest signing; accept-side boundary cases come from the t1 = 0 construction (every pk-length string is a valid public key)");
@@ -350,12 +380,22 @@ pub fn run(ctx: &Ctx, rep: &mut Report) {
         rep.note("aligned corpus empty");
     }
     run_list(rep, "aligned", &ac, check_aligned);
+    let mut gs = Vec::new();
+    for set in 0..3u8 {
+        for negative in [false, true] {
+            for mode in 0..4u8 {
+                gs.push(GrowthSig { set, negative, mode, hint_full: mode % 2 == 1 });
+            }
+        }
+    }
+    run_list(rep, "max_growth_z", &gs, check_growth_sig);
 }
 
 pub fn replay(_ctx: &Ctx, sub: &str, case: &Value) -> Option<CheckResult> {
     match sub {
         "generated" => Some(check(&from_case::<Case>(case), &mut Stats::default())),
         "aligned" => Some(check_aligned(&from_case::<AlignedCase>(case), &mut Stats::default())),
+        "max_growth_z" => Some(check_growth_sig(&from_case::<GrowthSig>(case), &mut Stats::default())),
         _ => None,
     }
 }
